@@ -24,7 +24,10 @@ RULE = ('a case = a generated host program (nested calls across modules, if/else
         'LocationAction with a *_capture stage), several on one function / line (several callbacks per context), '
         'plain snapshot/log tracepoints in between; fire_count=-1 fire_period=0; 40% of the span / capture '
         'tracepoints have a scripted condition (arbitrary open/not-open per hit). Main stream: the reference stream '
-        'satisfies NoClash and NoStack (checked by the generator). Stream rec-ok: self-recursive functions with the deferred-work tracepoints thinned out until no invocation '
+        'satisfies NoClash and NoStack (checked by the generator). Stream deep (SCALE, 1 of 28 + a corpus case): recursion 130-260 deep (thorough up to 420) with an '
+        'unlimited method span / deferred method capture on the recursive function, every level opening its own '
+        'context (more than a hundred pending on one thread, no name confusion: judged like main). '
+        'Stream rec-ok: self-recursive functions with the deferred-work tracepoints thinned out until no invocation '
         'runs while an enclosing same-named one has work pending (NoClash violated, NoClashW holds: c15_weak_partial), '
         'judged like main. Separate labelled streams kf-rec (self-recursive '
         'functions with spans) and kf-stack (method + line span pending at a function end) are instances of the two '
@@ -440,12 +443,33 @@ def gen_case(rng, tier, stream='main'):
         span_tp(0, 'm0.py', method='f')], stream='main')
 
 
+def deep_case(rng, tier):
+    """SCALE: recursion 130-260 deep (thorough: up to 420) with an unlimited method span / deferred method capture on the
+    recursive function — EVERY level opens its own context, so more than a hundred contexts are pending on one thread
+    at once; on the unwind each return finds its own context on top (no name confusion: judged like `main`), every
+    span is closed and every capture pushed exactly once, nothing is left pending."""
+    depth = rng.randint(130, 260) if tier == 'quick' else rng.randint(130, 420)
+    tps = [rng.choice([span_tp, cap_tp])(0, 'm0.py', method='rec')]
+    if rng.random() < 0.4:
+        tps.append(rng.choice([span_tp, cap_tp])(1, 'm0.py', method='rec'))      # two callbacks per context
+    if rng.random() < 0.3:
+        tps.append(plain_tp(rng, len(tps), 'm0.py', rng.choice([2, 5])))
+    n = rng.choice([1, 1, 2])
+    entries = [['m0', 'rec', depth]] + [['m0', 'rec', rng.choice([3, depth // 2])] for _ in range(n - 1)]
+    return {'kind': 'prog', 'mode': 'sys' if n == 1 else 'threads', 'files': {'m0.py': REC_SRC}, 'entries': entries,
+            'tps': tps, 'scripts': {}, 'sched': [rng.randrange(n) for _ in range(rng.randint(0, 8))] if n > 1 else [],
+            'model_seed': rng.randrange(10 ** 6), 'stream': 'deep'}
+
+
 def gen(rng, tier):
     k = j = 0
     while True:
         j += 1
         if j % 14 in (4, 8, 12):
             yield tlx.gen_case(rng, tier)
+            continue
+        if j % 28 == 6:
+            yield deep_case(rng, tier)
             continue
         if j % 14 == 0:
             yield cbx.gen_base_case(rng, tier) if (j // 14) % 3 == 2 else cbx.gen_case(rng, tier)
@@ -497,6 +521,10 @@ def corpus():
            cap_tp(3, 'm0.py', method='h'), span_tp(4, 'm0.py', method='gen'), span_tp(5, 'm0.py', line=20),
            span_tp(6, 'm0.py', line=18), cap_tp(7, 'm0.py', line=23)]
     return tlx.corpus() + cbx.corpus() + [
+        # SCALE: 140 nested invocations each with its own pending context (method span + deferred method capture)
+        {'kind': 'prog', 'mode': 'sys', 'files': {'m0.py': REC_SRC}, 'entries': [['m0', 'rec', 140]],
+         'tps': [span_tp(0, 'm0.py', method='rec'), cap_tp(1, 'm0.py', method='rec')], 'scripts': {}, 'sched': [],
+         'model_seed': 9, 'stream': 'deep'},
         {'kind': 'prog', 'mode': 'sys', 'files': {'m0.py': src}, 'entries': [['m0', 'f', 2]], 'tps': tps,
          'scripts': {}, 'sched': [], 'model_seed': 1, 'stream': 'main'},
         {'kind': 'prog', 'mode': 'threads', 'files': {'m0.py': src}, 'entries': [['m0', 'f', 2], ['m0', 'f', 0]],
